@@ -7,6 +7,7 @@
 #include "mutate.h"
 #include "vh.h"
 
+#include <algorithm>
 #include <cstdlib>
 #include <sys/stat.h>
 #include <unistd.h>
@@ -364,12 +365,10 @@ void vh_run_case(Ctx &ctx)
             // show up there as CDATA, and whether they exist depends on the keep-blanks default - the same cause as
             // the whitespace differences of the raw text
             auto withoutBlankNodes = [](std::string t) {
-                for (size_t p = t.find(" CDATA"); p != std::string::npos; p = t.find(" CDATA", p)) {
-                    t.erase(p, 6);
+                for (size_t p = t.find("CDATA"); p != std::string::npos; p = t.find("CDATA", p)) {
+                    t.erase(p, 5);
                 }
-                for (size_t p = t.find("CDATA "); p != std::string::npos; p = t.find("CDATA ", p)) {
-                    t.erase(p, 6);
-                }
+                t.erase(std::remove(t.begin(), t.end(), ' '), t.end()); // the list is "name name name )": spacing moves with it
                 return t;
             };
             if (gc == wc) {
